@@ -66,10 +66,11 @@ CHECKS = {
     "C03": {
         "level": "exploration", "floor": 20,
         "rule": "engine histories (profiles content/general/lowlevel/long; memory backend, plus the directory backend in quick and Deflate-over-directory / Brotli-over-SQLite in thorough): after every commit -> Some on a replica that is not behind, a fresh Melda::new on the same storage must show identical objects/winners/conflicts/revision sets/document/heads/blocks; "
-                "reopen ops compare with the last clean state. non-trivial = the history committed >=2 revisions of one object in one commit, or its first commit carried an update record." + DISTINCT,
+                "reopen ops compare with the last clean state. A dedicated scenario nests a value, or the commit metadata, 1-430 levels deep (objects, arrays, mixed; in the root object, in an array element, under a flattened key), commits, reopens, commits a second version and melds to a peer. non-trivial = the history committed >=2 revisions of one object in one commit, or its first commit carried an update record." + DISTINCT,
         "assumptions": ASSUME_COMMON,
         "jobs": [engine("content", "content", "C03", (1280, 60000)), engine("general", "general", "C03", (640, 30000)), engine("lowlevel", "lowlevel", "C03", (240, 12000)), engine("wide", "wide", "C03", (160, 8000)), engine("long", "long", "C03", (48, 1600)),
                  engine("content-dir", "content", "C03", (96, 4000), args={"backend": "fs"}),
+                 mode("deep-nesting", "c03deep", (320, 16000)),
                  engine("bigpacks-deflate", "bigdoc", "any", (32, 800), args={"backend": "mem+flate"}),
                  engine("bigpacks-brotli-dir", "bigdoc", "any", (16, 400), args={"backend": "fs+brotli"}),
                  engine("content-dir-deflate", "content", "C03", (0, 3000), args={"backend": "fs+flate"}, tier="thorough"),
@@ -114,11 +115,12 @@ CHECKS = {
         "level": "exploration", "floor": 20,
         "rule": "restated for a finite observer: no operation reaches logical quiescence (all threads parked in futex without timeout, no CPU or context-switch progress over 10 samples, CALL without RET on the progress pipe) and none panics or aborts, on well-formed input. "
                 "Workload: every public method in every state (commit/refresh/read/resolve/unstage/snapshot/stage/replay/reload_until/low-level object calls while arrays and objects are in conflict and changes are staged), worker pools of 1,2,3,4,5,8,16 threads, seeded 0-200us delays "
-                "injected before the per-object locks inside the parallel sections. thorough adds Miri (deadlock / data race / UB detection per schedule seed). non-trivial = a commit ran with >=1 flattened array in conflict." + DISTINCT,
+                "injected before the per-object locks inside the parallel sections; documents and commit metadata nested 1-430 levels deep. thorough adds Miri (deadlock / data race / UB detection per schedule seed). non-trivial = a commit ran with >=1 flattened array in conflict." + DISTINCT,
         "assumptions": ASSUME_COMMON + ["a livelock that burns CPU forever would be reported inconclusive by the wall-clock watchdog, not as a violation"],
         "jobs": [engine("allops", "allops", "C08", (1920, 120000), env_by_shard=THREADS_WIDE, args_by_shard=[{"delay": d} for d in (0, 3, 5, 0, 7, 9, 11, 13)]),
                  engine("lowlevel", "lowlevel", "C08", (640, 40000), env_by_shard=THREADS_WIDE, args_by_shard=[{"delay": d} for d in (0, 21, 0, 23)]),
                  engine("conflict", "conflict", "C08", (640, 40000), env_by_shard=THREADS_WIDE),
+                 mode("deep-nesting", "c03deep", (320, 16000)),
                  {"name": "miri", "external": "miri", "tier": "thorough", "scripts": 8}],
     },
     "C09": {
